@@ -386,7 +386,8 @@ def c12Independence (s : SyncCase) : Option String :=
     if desired.any (fun d => getAPIVersion d == "" || getKind d == "" || getName d == "") then none else
     firstSome desired (fun d =>
       if observed.any (fun o => getKind o == getKind d && apiGroup (getAPIVersion o) == apiGroup (getAPIVersion d) && getName o == getName d) then none else
-      match s.cfg.children.find? (fun c => c.kind == getKind d && c.group == apiGroup (getAPIVersion d)) with
+      -- (a desired child under an apiVersion the controller does not declare fails discovery: an error, not a create)
+      match s.cfg.children.find? (fun c => c.kind == getKind d && c.apiVersion == getAPIVersion d) with
       | none => none
       | some c => check (later.any (fun r => r.verb == "create" && r.resource == c.resource && r.name == getName d))
           s!"the desired child {getKind d} {getName d} was not observed, other children were written in this sync, yet no create was sent for it")
